@@ -724,6 +724,50 @@ func checkBH(c bhCase) *vk.Failure {
 				return vk.Failf("bh2-force", "particle %d theta=%g: force %v, direct sum %v (tol %g)", i, theta, got, want, tol)
 			}
 		}
+		// History: Particles altered after the tree was built. Documented: "Reset
+		// must be called if the Particles field or elements of Particles have been
+		// altered, unless ForceOn is called with theta=0": with theta = 0 the
+		// current particles decide, without a Reset; after Reset any theta does.
+		if c.N >= 2 {
+			ps2 := append([]barneshut.Particle2(nil), ps...)
+			ps2[0] = part2{ps[0].(part2).x + 1000.25, ps[0].(part2).y - 999.5, 2.5} // moved far away
+			switch g.Intn(3) {
+			case 0:
+				ps2 = append(ps2, part2{-2000.5, 1500.25, 4})
+			case 1:
+				ps2 = ps2[:len(ps2)-1]
+			}
+			plane.Particles = ps2
+			direct := func(p barneshut.Particle2) (r2.Vec, float64) {
+				var want r2.Vec
+				var abs float64
+				for _, e := range ps2 {
+					f := barneshut.Gravity2(p, e, p.Mass(), e.Mass(), r2.Sub(e.Coord2(), p.Coord2()))
+					want = r2.Add(want, f)
+					abs += math.Abs(f.X) + math.Abs(f.Y)
+				}
+				return want, abs
+			}
+			for i, p := range ps2 {
+				want, abs := direct(p)
+				got := plane.ForceOn(p, 0, barneshut.Gravity2)
+				tol := 8 * float64(len(ps2)+4) * vk.Eps * abs
+				if math.Abs(got.X-want.X) > tol || math.Abs(got.Y-want.Y) > tol {
+					return vk.Failf("bh2-theta0-after-mutation", "particle %d: ForceOn(theta=0) after altering Particles without Reset = %v, direct sum over the current particles %v", i, got, want)
+				}
+			}
+			if err := plane.Reset(); err != nil {
+				return vk.Failf("bh2-reset-error", "Reset after altering Particles: %v", err)
+			}
+			for i, p := range ps2 {
+				want, abs := direct(p)
+				got := plane.ForceOn(p, 1e-300, barneshut.Gravity2)
+				tol := 8 * float64(len(ps2)+4) * vk.Eps * abs
+				if math.Abs(got.X-want.X) > tol || math.Abs(got.Y-want.Y) > tol || math.IsNaN(got.X+got.Y) {
+					return vk.Failf("bh2-force-after-reset", "particle %d: force after Reset %v, direct sum %v", i, got, want)
+				}
+			}
+		}
 		return nil
 	}
 	ps := make([]barneshut.Particle3, c.N)
@@ -766,6 +810,48 @@ func checkBH(c bhCase) *vk.Failure {
 		tol := 8 * float64(c.N+4) * vk.Eps * abs
 		if math.Abs(got.X-want.X) > tol || math.Abs(got.Y-want.Y) > tol || math.Abs(got.Z-want.Z) > tol || math.IsNaN(got.X+got.Y+got.Z) {
 			return vk.Failf("bh3-force", "particle %d theta=%g: force %v, direct sum %v (tol %g)", i, theta, got, want, tol)
+		}
+	}
+	// History: see the 2-D case.
+	if c.N >= 2 {
+		ps2 := append([]barneshut.Particle3(nil), ps...)
+		q0 := ps[0].(part3)
+		ps2[0] = part3{q0.x + 1000.25, q0.y - 999.5, q0.z + 500.75, 2.5}
+		switch g.Intn(3) {
+		case 0:
+			ps2 = append(ps2, part3{-2000.5, 1500.25, 700.5, 4})
+		case 1:
+			ps2 = ps2[:len(ps2)-1]
+		}
+		vol.Particles = ps2
+		direct := func(p barneshut.Particle3) (r3.Vec, float64) {
+			var want r3.Vec
+			var abs float64
+			for _, e := range ps2 {
+				f := barneshut.Gravity3(p, e, p.Mass(), e.Mass(), r3.Sub(e.Coord3(), p.Coord3()))
+				want = r3.Add(want, f)
+				abs += math.Abs(f.X) + math.Abs(f.Y) + math.Abs(f.Z)
+			}
+			return want, abs
+		}
+		for i, p := range ps2 {
+			want, abs := direct(p)
+			got := vol.ForceOn(p, 0, barneshut.Gravity3)
+			tol := 8 * float64(len(ps2)+4) * vk.Eps * abs
+			if math.Abs(got.X-want.X) > tol || math.Abs(got.Y-want.Y) > tol || math.Abs(got.Z-want.Z) > tol {
+				return vk.Failf("bh3-theta0-after-mutation", "particle %d: ForceOn(theta=0) after altering Particles without Reset = %v, direct sum over the current particles %v", i, got, want)
+			}
+		}
+		if err := vol.Reset(); err != nil {
+			return vk.Failf("bh3-reset-error", "Reset after altering Particles: %v", err)
+		}
+		for i, p := range ps2 {
+			want, abs := direct(p)
+			got := vol.ForceOn(p, 1e-300, barneshut.Gravity3)
+			tol := 8 * float64(len(ps2)+4) * vk.Eps * abs
+			if math.Abs(got.X-want.X) > tol || math.Abs(got.Y-want.Y) > tol || math.Abs(got.Z-want.Z) > tol || math.IsNaN(got.X+got.Y+got.Z) {
+				return vk.Failf("bh3-force-after-reset", "particle %d: force after Reset %v, direct sum %v", i, got, want)
+			}
 		}
 	}
 	return nil
